@@ -73,6 +73,7 @@ def run(rep: core.Report):
     _r17i(rep)
     _r17k(rep)
     _r17l(rep)
+    _r17m(rep)
     from rules import shared_bcast
 
     shared_bcast.run(rep, "R17j", sorted(core.python_files("phonopy/interface")))
@@ -894,6 +895,36 @@ def _r17k(rep):
 
 
 
+def _r17m(rep):
+    """Per-vector scale factors of the input formats that have them, decided entry by entry on symbols."""
+    import sympy as sp
+
+    from engine import symnp
+
+    rep.rule("R17m", "lattice assembly of readers with per-vector scale factors (symbolic evaluation of the statements that build cell=): Elk -- lattice vector i is scale_i * avec_i (scale1/2/3 of the Elk manual scale the first/second/third lattice vector); ABINIT -- primitive vector i is acell_i * rprim_i with Cartesian component j multiplied by scalecart_j; a product that pairs the factors with the other axis keeps the volume and changes lengths and angles whenever the factors differ and the matrix is not diagonal", 2)
+    A = symnp.matrix("a", 3, 3)
+    sc = symnp.vector("s", 3)
+    cart = symnp.vector("c", 3)
+    cases = [
+        ("phonopy/interface/elk.py", "read_elk", {"tags['avec']": A, "tags['scale']": sc}, [[sc[i] * A[i][j] for j in range(3)] for i in range(3)], "scale_i * avec_i"),
+        ("phonopy/interface/abinit.py", "read_abinit", {"tags['rprim']": A, "tags['acell']": sc, "tags['scalecart']": cart}, [[sc[i] * cart[j] * A[i][j] for j in range(3)] for i in range(3)], "acell_i * scalecart_j * rprim_i[j]"),
+    ]
+    for rel, fname, env, want, text in cases:
+        fn = core.find_def(rel, fname)
+        ctor = [c for c in ast.walk(fn) if isinstance(c, ast.Call) and core.src(c.func) == "PhonopyAtoms"]
+        cellkw = [k.value for c in ctor for k in c.keywords if k.arg == "cell"]
+        if len(cellkw) != 1:
+            raise AnalysisError(f"R17m: {fname} no longer builds one PhonopyAtoms(cell=...)")
+        stmts = symnp.backward_slice(fn.body, cellkw[0], opaque=("tags", "np"))
+        evl = symnp.Evaluator(env, where=fname)
+        symnp.run_block(evl, stmts)
+        got = evl.ev(cellkw[0])
+        ok = symnp.shape(got) == (3, 3) and all(sp.expand(got[i][j] - want[i][j]) == 0 for i in range(3) for j in range(3))
+        bad = next(((i, j) for i in range(3) for j in range(3) if symnp.shape(got) == (3, 3) and sp.expand(got[i][j] - want[i][j]) != 0), None)
+        rep.instance("R17m", rel, fname, f"cell[i][j] = {text} ({len(stmts)} statements evaluated)", ok,
+                     f"component {bad} of the lattice handed to PhonopyAtoms is {got[bad[0]][bad[1]] if bad else symnp.shape(got)}, not {want[bad[0]][bad[1]] if bad else ''}: the scale factors are paired with the Cartesian columns instead of the lattice vectors (or the reverse)", line=fn.lineno)
+
+
 def _r17l(rep):
     """SIESTA species table: the index a label maps to and the index the atomic numbers are keyed by are the same column."""
     SI = "phonopy/interface/siesta.py"
@@ -993,6 +1024,9 @@ def selftest():
     V = []
     b = lambda name, file, old, new, rule, expect="", **kw: V.append(dict(name=name, kind="break", file=file, old=old, new=new, rule=rule, expect=expect, **kw))
     n = lambda name, file, old, new, **kw: V.append(dict(name=name, kind="neutral", file=file, old=old, new=new, **kw))
+    b("Elk per-vector scales applied to the Cartesian columns", "phonopy/interface/elk.py", "    avec = [tags[\"scale\"][i] * np.array(tags[\"avec\"][i]) for i in range(3)]\n", "    avec = np.array(tags[\"avec\"], dtype=\"double\") * tags[\"scale\"]\n", "R17m", "read_elk")
+    n("Elk per-vector scales by a column of factors", "phonopy/interface/elk.py", "    avec = [tags[\"scale\"][i] * np.array(tags[\"avec\"][i]) for i in range(3)]\n", "    avec = np.array(tags[\"avec\"], dtype=\"double\") * np.array(tags[\"scale\"])[:, None]\n")
+    b("ABINIT acell applied to the Cartesian rows", "phonopy/interface/abinit.py", "    rprim = tags[\"rprim\"].T\n", "    rprim = tags[\"rprim\"]\n", "R17m", "read_abinit")
     b("qe force conversion inverted", CALC, 'units["force_to_eVperA"] = Rydberg / Bohr\n        units["force_constants_unit"] = "Ry/au^2"', 'units["force_to_eVperA"] = Rydberg * Bohr\n        units["force_constants_unit"] = "Ry/au^2"', "R17b", "qe")
     b("abinit nac factor of the wrong unit system", CALC, 'units["factor"] = AbinitToTHz\n        units["nac_factor"] = Hartree / Bohr', 'units["factor"] = AbinitToTHz\n        units["nac_factor"] = Hartree * Bohr', "R17b", "abinit")
     b("wien2k unit string says Ry", CALC, 'units["force_constants_unit"] = "mRy/au^2"', 'units["force_constants_unit"] = "Ry/au^2"', "R17b", "wien2k")
